@@ -112,10 +112,10 @@ def nfa_find_epsilon_path(N: NFA, R: Set[State], f: State) -> Optional[List[Stat
                 continue
             for q in Q1:
                 target = q
-                backpointers[target] = src
-                if target == f:
-                    return make_path(target)
                 if target not in visited:
+                    backpointers[target] = src
+                    if target == f:
+                        return make_path(target)
                     todo.add(target)
                     visited.add(target)
     return None
